@@ -292,7 +292,7 @@ def build_mixed(ch, acc, with_ack_groups=True, **kw):
 
 
 ENVELOPE_FAULTS = ['se-count', 'se-id', 'ge-count', 'ge-id', 'iea-count', 'iea-id', 'gs-date', 'gs-time', 'st-dup', 'gs-dup', 'gs-code',
-                   'se-count-alpha', 'st-id-long', 'se-count', 'st-dup', 'st-many-codes', 'st-many-codes', 'st-many-codes', 'drop-trailer', 'st-dup-far', 'gs-dup-far', 'trailer-and-neighbour', 'trailer-and-neighbour', 'envelope-extra-element', 'envelope-extra-element', 'stray-after-trailer', 'stray-after-trailer', 'spelling', 'spelling', 'spelling', 'header-cut-short', 'header-cut-short', 'count-with-components', 'count-with-components']
+                   'se-count-alpha', 'st-id-long', 'se-count', 'st-dup', 'st-many-codes', 'st-many-codes', 'st-many-codes', 'drop-trailer', 'st-dup-far', 'gs-dup-far', 'trailer-and-neighbour', 'trailer-and-neighbour', 'envelope-extra-element', 'envelope-extra-element', 'stray-after-trailer', 'stray-after-trailer', 'spelling', 'spelling', 'spelling', 'header-cut-short', 'header-cut-short', 'count-with-components', 'count-with-components', 'empty-group', 'empty-group']
 
 
 def envelope_fault(doc, ch):
@@ -371,6 +371,32 @@ def _envelope_fault(doc, ch):
             return None
         src = body[ch.integer(0, len(body) - 1)]
         doc.segs.insert(i + 1, docgen.GSeg(src.node, [list(x) for x in src.vals], list(doc.segs[i].chain)))
+    elif kind == 'empty-group':
+        # a functional group with no transaction set in it (GS directly followed by GE*0), after a group that is in order;
+        # the interchange counts it
+        c = [i for i, s_ in enumerate(doc.segs) if s_.id == 'GE']
+        if not c:
+            return None
+        i = c[ch.integer(0, len(c) - 1)]
+        g = [j for j in range(i) if doc.segs[j].id == 'GS']
+        if not g:
+            return None
+        gs, ge = doc.segs[g[-1]], doc.segs[i]
+        ctl = '9' + (gs.vals[5][0] if len(gs.vals) > 5 and gs.vals[5][0] else '1')
+        ngs = docgen.GSeg(gs.node, [list(x) for x in gs.vals], list(gs.chain))
+        nge = docgen.GSeg(ge.node, [list(x) for x in ge.vals], list(ge.chain))
+        if len(ngs.vals) > 5 and len(nge.vals) > 1:
+            ngs.vals[5] = [ctl[:9]]
+            nge.vals[0] = ['0']
+            nge.vals[1] = [ctl[:9]]
+            doc.segs[i + 1:i + 1] = [ngs, nge]
+            for s_ in doc.segs[i + 3:]:
+                if s_.id == 'IEA':
+                    try:
+                        s_.vals[0] = [str(int(s_.vals[0][0]) + 1)]
+                    except ValueError:
+                        pass
+                    break
     elif kind == 'trailer-and-neighbour':
         # an element error on a trailer and one at the same element position of the segment right before it
         c = [i for i, s_ in enumerate(doc.segs) if s_.id == 'SE' and i > 0 and doc.segs[i - 1].id not in ('ST', 'ISA', 'GS')]
